@@ -734,7 +734,6 @@ impl<'a> NtpPacket<'a> {
                         .authenticated
                         .iter()
                         .chain(input.efdata.encrypted.iter())
-                        .take(MAX_COOKIES)
                         .filter_map(|f| match f {
                             ExtensionField::NtsCookiePlaceholder { cookie_length } => {
                                 let new_cookie = keyset.encode_cookie(cookie);
@@ -754,6 +753,7 @@ impl<'a> NtpPacket<'a> {
                             }
                             _ => None,
                         })
+                        .take(MAX_COOKIES)
                         .collect(),
                     authenticated: input
                         .efdata
@@ -779,7 +779,6 @@ impl<'a> NtpPacket<'a> {
                         .authenticated
                         .iter()
                         .chain(input.efdata.encrypted.iter())
-                        .take(MAX_COOKIES)
                         .filter_map(|f| match f {
                             ExtensionField::NtsCookiePlaceholder { cookie_length } => {
                                 let new_cookie = keyset.encode_cookie(cookie);
@@ -799,6 +798,7 @@ impl<'a> NtpPacket<'a> {
                             }
                             _ => None,
                         })
+                        .take(MAX_COOKIES)
                         .collect(),
                     authenticated: input
                         .efdata
